@@ -15,7 +15,7 @@ LEVEL_TEXT = ("Static structural proof of necessary conditions: (R4.1) in the fu
               "validators no branch condition or comparison depends on a spelling-dependent accessor (org_tag, "
               "org_base_tag, tag, the original string), which may flow only into messages and index arithmetic. "
               "Invariance itself (a relation between two runs) and blank-insensitivity of the delimiter scan are NOT decided.")
-LEVEL_EXTRA = "Added after the seeded evaluation: (R4.3) blank-stripped delimiter scan; (R4.4) the validators' sibling loops carry no conditionally assigned state from one sibling to the next (one frozen exception); (R4.5) 'is a top-level group' is decided by identity, not order-sensitive equality; (R4.6) a reporting loop is left by `break` only after a report in the same iteration. (R4.7) HedTag.__eq__ folds case on every form it compares, as __hash__ does. (R4.8) the string-level validators store nothing on self outside their constructors. (R4.9) an issue list that is being accumulated is never plainly re-assigned before it was read."
+LEVEL_EXTRA = "Added after the seeded evaluation: (R4.3) blank-stripped delimiter scan; (R4.4) the validators' sibling loops carry no conditionally assigned state from one sibling to the next (one frozen exception); (R4.5) 'is a top-level group' is decided by identity, not order-sensitive equality; (R4.6) a reporting loop is left by `break` only after a report in the same iteration. (R4.7) HedTag.__eq__ folds case on every form it compares, as __hash__ does. (R4.8) the string-level validators store nothing on self outside their constructors. (R4.9) an issue list that is being accumulated is never plainly re-assigned before it was read. R4.2 also covers the find_* searches of HedString/HedGroup the validators rely on; R4.9 also reports an issue list that a loop plainly re-assigns without it having been read."
 
 SPELLING_ATTRS = {"org_tag", "org_base_tag", "_hed_string", "_org_tag"}
 SPELLING_CALLS = {"get_original_hed_string", "get_as_original"}
@@ -232,6 +232,9 @@ def run(ctx):
         raise AnalysisError("R4.2 anchors vanished")
     closure = cg.reachable(entries, ("precise", "prop"))
     scope = [f for f in closure if f.module.name.startswith("hed.validator")]
+    # the searches the validators rely on to find anchors / tags by name decide on the resolved node as well
+    scope += sorted((f for f in prog.functions.values() if f.module.name in ("hed.models.hed_string", "hed.models.hed_group")
+                     and f.name.startswith(("find_", "_find")) and f not in scope), key=lambda f: f.qualname)
     ctx.floor("R4.2", "validator functions in the full-phase closure", len(scope), 10)
 
     def spelling(x):
